@@ -64,6 +64,7 @@ pub fn run_case(line: &str) {
     let enc0: &'static Encoding = encs[geti(&m, "enc", 23) % encs.len()];
     let meta = getb(&m, "meta");
     let sparse = getb(&m, "sparse");
+    let medit = geti(&m, "medit", 0);
     let ins: Option<String> = m.get("ins").filter(|v| v.as_str() != "-").map(|v| String::from_utf8(unhex(v)).unwrap());
     let endins: Option<String> = m.get("endins").filter(|v| v.as_str() != "-").map(|v| String::from_utf8(unhex(v)).unwrap());
     let ops = parse_ops(m.get("ops").map(|s| s.as_str()).unwrap_or("E"));
@@ -82,6 +83,18 @@ pub fn run_case(line: &str) {
             o1.borrow_mut().probes.push((a, p1, p2));
             o1.borrow_mut().tags.push((e.tag_name_preserve_case(), attrs, a, b, e.tag_name()));
             if let Some(s) = &ins2 { e.before(s, ContentType::Html); }
+            // medit: a user handler rewrites the declaration attributes of <meta> (a transcoding set-up). The declaration of the INPUT decides the
+            // encoding (the built-in detector runs before user handlers), whatever the handler leaves in the tag
+            if medit != 0 && e.tag_name() == "meta" {
+                match medit {
+                    1 => { let _ = e.set_attribute("charset", "utf-8"); }
+                    2 => { e.remove_attribute("charset"); e.remove_attribute("content"); }
+                    3 => { let _ = e.set_attribute("charset", "windows-1251"); }
+                    // the handler fails: the write fails; nothing of this rewriter may be seen by the next one on the thread (C18)
+                    9 => { return Err("meta handler failed".into()); }
+                    _ => { let _ = e.set_attribute("http-equiv", "content-type"); let _ = e.set_attribute("content", "text/html; charset=koi8-r"); }
+                }
+            }
             Ok(())
         })))
         // a type selector whose name most encodings cannot represent: no element has that name, so :not(name) matches every element (C04)
@@ -123,7 +136,7 @@ pub fn run_case(line: &str) {
     let mut bad: Vec<String> = vec![];
     let mut bad16: Vec<String> = vec![];       // by-name attribute lookups (property C16; also exposes state shared between rewriters, C18)
     let mut bad14: Vec<String> = vec![];       // text chunk ranges (property C14); a node with broken ranges is not used for the C13 comparisons
-    if !all_ok { bad.push("a call failed or panicked".into()); }
+    if !all_ok && medit != 9 { bad.push("a call failed or panicked".into()); }
     // ---- the encoding in force at an input offset: enc0 until the end of the first effective <meta charset> start tag
     let mut switch: Option<(usize, &'static Encoding)> = None;
     if meta {
@@ -233,7 +246,7 @@ pub fn run_case(line: &str) {
         expected_out.extend_from_slice(&input[cursor.min(input.len())..]);
         if let Some(s) = &endins { expected_out.extend_from_slice(&enc_at(input.len()).encode(s).0); }
         let got: Vec<u8> = o.sink.iter().flat_map(|(_, c)| c.clone()).collect();
-        if got != expected_out {
+        if medit == 0 && got != expected_out {
             let n = got.iter().zip(expected_out.iter()).take_while(|(x, y)| x == y).count();
             bad.push(format!("sink bytes differ from the reference at output offset {n}: got {:?}.., expected {:?}.. (lengths {} / {})",
                 String::from_utf8_lossy(&got[n..(n + 24).min(got.len())]), String::from_utf8_lossy(&expected_out[n..(n + 24).min(expected_out.len())]), got.len(), expected_out.len()));
@@ -244,6 +257,7 @@ pub fn run_case(line: &str) {
         for (e, c) in &o.sink { match e { Some(e) => calls.push((*e, emitted)), None => emitted += c.len() } }
         let mut want: Vec<(&'static Encoding, usize)> = vec![(enc0, 0)];
         if let (Some((_, e)), Some(n)) = (switch, switch_out_len) { if e != enc0 { want.push((e, n)); } }
+        if medit != 0 { for c in calls.iter_mut() { c.1 = 0; } for w in want.iter_mut() { w.1 = 0; } }      // (re-serialised tags: positions not compared)
         if calls != want {
             bad.push(format!("set_encoding calls (encoding, bytes emitted before) = {:?}, expected {:?}", calls.iter().map(|(e, n)| (e.name(), *n)).collect::<Vec<_>>(), want.iter().map(|(e, n)| (e.name(), *n)).collect::<Vec<_>>()));
         }
